@@ -57,6 +57,10 @@ type c01Fault struct {
 	dialDelay            time.Duration // "no proxy available" for this long before the carrier exists
 	dnFreezeAfter        int           // downstream bytes after which the client stops reading this carrier for dnFreezeFor
 	dnFreezeFor          time.Duration // (the carrier still delivers upstream: a slow / stalled consumer)
+	linger               time.Duration // after the client has closed the carrier its WebSocket stays open this long at the server
+	//                                    (a frozen or half-open proxy: the replacement attaches while the old one lingers)
+	silent bool // the cut is one-sided: writes fail from then on, reads just never return anything again
+	//                                    until the owner closes the carrier (a proxy that died without a word)
 }
 
 // faultConn wraps one carrier.
@@ -66,13 +70,15 @@ type faultConn struct {
 	mu      sync.Mutex
 	up, dn  int
 	cut     bool
+	dead    bool          // silent death: writes fail, reads block until Close
+	closed  chan struct{} // closed by Close
 	onClose func()
 	once    sync.Once
 }
 
 func (c *faultConn) Write(b []byte) (int, error) {
 	c.mu.Lock()
-	if c.cut {
+	if c.cut || c.dead {
 		c.mu.Unlock()
 		return 0, io.ErrClosedPipe
 	}
@@ -94,6 +100,12 @@ func (c *faultConn) Write(b []byte) (int, error) {
 			return 0, err
 		}
 	}
+	if cutNow && c.f.silent && c.closed != nil {
+		c.mu.Lock()
+		c.dead = true
+		c.mu.Unlock()
+		return n, io.ErrClosedPipe
+	}
 	if cutNow {
 		c.Close()
 		return n, io.ErrClosedPipe
@@ -104,6 +116,11 @@ func (c *faultConn) Write(b []byte) (int, error) {
 func (c *faultConn) Read(b []byte) (int, error) {
 	n, err := c.inner.Read(b)
 	c.mu.Lock()
+	if c.dead && !c.cut && c.closed != nil {
+		c.mu.Unlock()
+		<-c.closed // nothing ever arrives again; only the owner's Close ends the read
+		return 0, io.ErrClosedPipe
+	}
 	if c.f.dnFreezeAfter > 0 && c.dn < c.f.dnFreezeAfter && c.dn+n >= c.f.dnFreezeAfter {
 		c.mu.Unlock()
 		time.Sleep(c.f.dnFreezeFor)
@@ -131,7 +148,14 @@ func (c *faultConn) Close() error {
 		c.mu.Lock()
 		c.cut = true
 		c.mu.Unlock()
-		c.inner.Close()
+		if c.closed != nil {
+			close(c.closed)
+		}
+		if c.f.linger > 0 {
+			time.AfterFunc(c.f.linger, func() { c.inner.Close() })
+		} else {
+			c.inner.Close()
+		}
 		if c.onClose != nil {
 			c.onClose()
 		}
@@ -165,6 +189,7 @@ func c01GenFault(rng *rand.Rand, first bool) c01Fault {
 		f.upBudget = rng.Intn(40)
 	case x < 6: // cut upstream somewhere mid-stream
 		f.upBudget = 16 + rng.Intn(60000)
+		f.silent = rng.Intn(2) == 0
 	case x < 8: // cut downstream mid-stream
 		f.downBudget = rng.Intn(40000)
 	case x < 9:
@@ -176,6 +201,9 @@ func c01GenFault(rng *rand.Rand, first bool) c01Fault {
 	}
 	if !first && rng.Intn(5) == 0 {
 		f.dialDelay = time.Duration(rng.Intn(700)) * time.Millisecond
+	}
+	if rng.Intn(4) == 0 {
+		f.linger = time.Duration(500+rng.Intn(2500)) * time.Millisecond
 	}
 	return f
 }
@@ -198,7 +226,14 @@ func c01OutageFault(k int32, downstream bool) c01Fault {
 }
 
 func (f c01Fault) String() string {
-	return fmt.Sprintf("up%d/dn%d/frz%d@%v/delay%v", f.upBudget, f.downBudget, f.freezeAfter, f.freezeFor, f.dialDelay)
+	silent := ""
+	if f.silent {
+		silent = "/silent"
+	}
+	if f.linger > 0 {
+		silent += fmt.Sprintf("/linger%v", f.linger)
+	}
+	return fmt.Sprintf("up%d%s/dn%d/frz%d@%v/delay%v", f.upBudget, silent, f.downBudget, f.freezeAfter, f.freezeFor, f.dialDelay)
 }
 
 // c01Client runs one session from the client end.
@@ -248,7 +283,7 @@ func c01Client(serverAddr string, res *c01Result, seed int64, maxFaults int, dea
 			return nil, err
 		}
 		atomic.AddInt32(&res.carriers, 1)
-		return &faultConn{inner: websocketconn.New(ws), f: f}, nil
+		return &faultConn{inner: websocketconn.New(ws), f: f, closed: make(chan struct{})}, nil
 	}
 	// statement by statement as newSession's dialContext (tie: Tie/ClientSession skel_newSession_tie)
 	dialContext := func(ctx context.Context) (net.PacketConn, error) {
